@@ -310,6 +310,10 @@ func genSigCase(t *rapid.T) (pub []byte, m *big.Int, sig cipher.Sig, class strin
 		class = "s_edge"
 	case 6:
 		recid = rapid.IntRange(0, 255).Draw(t, "recid")
+		if rapid.Bool().Draw(t, "recid_alias") {
+			// bytes whose low two bits are the true recovery id: code that masks the byte instead of judging it takes them
+			recid = (recid & 3) | rapid.SampledFrom([]int{4, 8, 16, 32, 64, 128, 252}).Draw(t, "recid_high")
+		}
 		class = "recid_any"
 	case 7:
 		recid ^= 1
